@@ -17,20 +17,20 @@ from pbt.ref import semantics as sem
 PROPERTY_ID = "C22"
 LEVEL = "exploration"
 
-N_SAMPLES = {"quick": 2000, "thorough": 30000}
+N_SAMPLES = {"quick": 1500, "thorough": 10000}
 DELTA = 1e-9
 MIN_EVIDENCE = 0.05
 MAX_CHOICES = 10
 MAX_WORLDS = 1 << 12
 
 RULE = ("Case = (program AST from pbt.gen.programs.programs(allow_nonground_query=False, allow_neg_query=False): "
-        "probabilistic facts, annotated disjunctions with/without bodies, probabilistic rules, rules, stratified "
-        "negation, positive recursion, 1-3 ground queries, 0-2 evidence atoms; kept only when the reference "
+        "probabilistic facts, annotated disjunctions with/without bodies, probabilistic rules, rules (also with a "
+        "disjunctive body), stratified negation, positive recursion, 1-3 ground queries, 0-2 evidence atoms; kept only when the reference "
         "P(evidence) >= 0.05, <= 10 relevant choices and no undefined atoms; for half of the programs the evidence atoms are "
         "instead drawn among the ground atoms with reference marginal strictly between 0 and 1; thinning: all "
         "non-trivial programs with P(evidence) < 1, 1/4 of the other non-trivial ones, 1/24 of the trivial ones), "
         "propagate_evidence in {False, True}, n accepted samples with n = N * min(1, 2 P(evidence)) rounded down to a "
-        "multiple of 100, N = 2000 (quick) / 30000 (thorough) (the expected number of grounding attempts is then <= "
+        "multiple of 100, N = 1500 (quick) / 10000 (thorough) (the expected number of grounding attempts is then <= "
         "2N), two integers passed to "
         "random.seed (sample loop / estimate).  The loop of tasks.sample.sample is replayed through its public pieces "
         "(init_engine, init_db, SampledFormula, FunctionStore, ground, verify_evidence, to_string(with_probability), "
@@ -42,13 +42,13 @@ RULE = ("Case = (program AST from pbt.gen.programs.programs(allow_nonground_quer
         "(false) and over sampled AD instances of p_chosen, or 1 - sum(p of the examined heads) when no head was "
         "chosen; choices fixed by evidence propagation (propagate_evidence=True) are not choices made and contribute "
         "1; samples in which an AD instance has a head fixed FALSE by propagation are not checked for (b).  Per "
-        "program: |frequency - reference conditional probability| <= eps = sqrt(ln(2/1e-9)/(2n)) (0.0732 for n=2000, "
-        "0.0189 for n=30000, 0.23 for the smallest n=200 at P(evidence)=0.05 in the quick tier) for every query, for the sample loop and for estimate(model, n); more than 4n/P(evidence)"
+        "program: |frequency - reference conditional probability| <= eps = sqrt(ln(2/1e-9)/(2n)) (0.0845 for n=1500, "
+        "0.0327 for n=10000, 0.33 for the smallest n=100 at P(evidence)=0.05 in the quick tier) for every query, for the sample loop and for estimate(model, n); more than 4n/P(evidence)"
         "+2000 grounding attempts for n accepted samples is reported as non-terminating rejection.  Non-trivial: >= 2 "
         "relevant choices and a query with reference conditional probability in (0.1, 0.9).  Distinct = distinct "
         "case.")
 ASSUMPTIONS = ["reference enumerator (pbt/ref/semantics.py) is the semantics",
-               "the statistical part only detects gross errors: a frequency may be off by up to eps (0.07-0.23 quick, 0.019-0.06 "
+               "the statistical part only detects gross errors: a frequency may be off by up to eps (0.08-0.33 quick, 0.033-0.10 "
                "thorough) without being noticed; false-alarm probability <= 1e-9 per query and run (Hoeffding)",
                "the replayed loop is the loop of tasks.sample.sample (cross-checked on the first 200 samples)",
                "sampled choices are mapped to program statements by database order: probabilistic fact nodes <-> "
@@ -275,7 +275,8 @@ def check(case):
     if attempts > n:
         feats.add("rejections")
 
-    smap = StatementMap(prog, db, ref)
+    # statement indices of the reference refer to the program with body disjunctions expanded into two rules
+    smap = StatementMap(sem.expand(prog) if hasattr(sem, "expand") else prog, db, ref)
     if not smap.ok:
         return done(inconclusive="mapping:" + smap.why)
     forced = {}
@@ -378,7 +379,7 @@ def check(case):
                 if m is not None:
                     cons &= m
         if unmapped is not None:
-            return done(inconclusive="mapping:unmapped")
+            return done(inconclusive="mapping:unmapped:" + unmapped.split(" ")[0])
         # ---- (a) a world
         w = cons
         for k in qkeys:
@@ -529,6 +530,9 @@ def _has_evidence(prog):
 
 
 KNOWN_CLASSES = {
+    # evidence propagation in the sampler (init_db / verify_evidence): only cases that ask for it on a program
+    # that has evidence
+    "propagate_evidence_with_evidence": lambda case, failure: bool(case["pe"]) and _has_evidence(case["prog"]),
     "negcycle_fp": lambda case, failure: gp.neg_on_cyclic_goal_under_active_cycle(case["prog"]),
     "neg_under_cycle": lambda case, failure: gp.neg_under_active_cycle(case["prog"]),
     "ad_cyclic_complement": lambda case, failure: gp.cyclic_multihead_ad_with_complementary_body(case["prog"]),
@@ -537,6 +541,6 @@ KNOWN_CLASSES = {
 }
 
 SUBCHECKS = [
-    SubCheck("sampling", check, strategy=_strategy, budget={"quick": 64, "thorough": 400},
-             timeout={"quick": 60, "thorough": 600}, render=render),
+    SubCheck("sampling", check, strategy=_strategy, budget={"quick": 48, "thorough": 240},
+             timeout={"quick": 60, "thorough": 900}, render=render),
 ]
